@@ -28,6 +28,48 @@ func checkC02(c *Check, a *Anchors) {
 	c01DepsJoined(c, a) // a task call returns only after the callee's dependencies have all finished: the dependency runner joins every goroutine it started
 	orderedRebuildSinglePass(c, a, "ordered-rebuild-single-pass")
 	c02DeferredInsideExecution(c, a)
+	c02CommandRunSynchronous(c, a)
+	elementLiteralCarriesFields(c, a, "element-literal-carries-fields")
+}
+
+// c02CommandRunSynchronous: a cmds entry has "completely finished" when execext.RunCommand returns — which therefore must not
+// return before the interpreter run of the user command has returned.
+func c02CommandRunSynchronous(c *Check, a *Anchors) {
+	c.Rule("command-run-synchronous", "execext.RunCommand calls the shell interpreter's Run in its own body (never from a goroutine or a function literal) and every return that follows the call yields that call's result: RunCommand cannot return (on cancellation, say) while the command is still running, so the next entry, the deferred commands and the caller start only after the process has ended")
+	var rc *FuncBody
+	if fn, ok := a.RunCommandObj.(*types.Func); ok {
+		rc = c.P.DeclOf(fn)
+	}
+	if rc == nil {
+		c.Errorf("command-run-synchronous: execext.RunCommand not found")
+		return
+	}
+	c.Fn(rc)
+	isRun := func(obj types.Object) bool {
+		return isFunc(obj, "mvdan.cc/sh/v3/interp", "Runner", "Run")
+	}
+	own, inLit := 0, 0
+	for _, fb := range c.P.BodiesIn(rc.Pkg.PkgPath) {
+		for _, call := range callsIn(fb, false) {
+			if !isRun(callee(fb.Info(), call)) {
+				continue
+			}
+			if fb.Lit != nil {
+				inLit++
+				c.Bad("command-run-synchronous", "interpreter-run@"+fnDisplay(fb), call.Pos(), "the shell interpreter is run from a function literal (goroutine / callback): the function that started the command can return while the command is still running")
+			} else if fb == rc {
+				own++
+			}
+		}
+	}
+	n := resultFollows(c, a, rc, "interp-run", "command-run-synchronous", func(call *ast.CallExpr, obj types.Object) string {
+		if isRun(obj) {
+			return "interp-run"
+		}
+		return ""
+	})
+	c.Floor("command-run-synchronous", own+inLit, 1)
+	c.Floor("command-run-synchronous", n, 1)
 }
 
 // c02DeferredInsideExecution: the deferred commands of a task are part of the execution that the dedup function publishes:
